@@ -186,13 +186,16 @@ func init() {
 	// feasible value, each tagged so that they are not merged again before the matching Join().
 	// Quiesce lets every other runnable goroutine run until it blocks or ends, then continues.
 	blockingIntrinsics[p+"Quiesce"] = func(x *Exec, s *State, c *CallCtx) (Value, bool) {
+		me := s.thread()
 		for i, t := range s.Threads {
-			if i != s.Cur && !t.Done && t.Blocked == nil {
+			if i != s.Cur && !t.Done && t.Blocked == nil && !t.Quiescing {
+				me.Quiescing = true
 				s.Cur = i
 				x.push(s)
 				return nil, true
 			}
 		}
+		me.Quiescing = false
 		return nil, false
 	}
 	blockingIntrinsics[p+"Regroup"] = func(x *Exec, s *State, c *CallCtx) (Value, bool) {
